@@ -173,6 +173,7 @@ void Encoder::clearEncodingMetadata(bool clearSequenceCounter)
     bytesLeft = 0;
     cmpFrames.clear();
     cmpFrameTemplate.clear();
+    messageType = CmpHeader::MessageType::undefined;
 
     if (clearSequenceCounter)
         sequenceCounter = 0;
